@@ -6,11 +6,30 @@ package main
 // then a failing text that (re)defines the same names, then probes; a twin
 // evaluates the set-up text and the probes only. Both must answer the probes
 // alike (NoopTrace.tla: the failing evaluation is a stuttering step).
+//
+// The rejected text comes in these classes (NoopTrace.tla says what each
+// requires):
+//   - rejected at top level: parse error, compile error, expansion error, bad jump;
+//   - the ill-formed form in every evaluated nesting position, among them the
+//     operand of an unquote inside a syntax-quote template;
+//   - rejected on a nested compile route: the text is an argument of a call
+//     (compiled when the call is executed), the argument of eval, a lazy
+//     argument that is forced, a sourced or included file;
+//   - the (re)definition itself fails in the middle (its value expression
+//     calls a failing host function, or the binding is refused);
+//   - special forms whose operand is an improper list, and forms that generate
+//     no value used where a value is needed below a caller's value: these may
+//     be given a meaning, but must not panic and, when they fail, change nothing.
 
 import (
 	"encoding/json"
 	"fmt"
+	"os"
+	"path/filepath"
+	"regexp"
 	"strings"
+
+	zygo "github.com/glycerine/zygomys/v9/zygo"
 )
 
 type noopDef struct {
@@ -19,28 +38,36 @@ type noopDef struct {
 	redef  string   // a valid re-definition that behaves differently
 	broken string   // a re-definition whose body does not compile ("" if the form has no body)
 	probes []string // what a later evaluation can see of the names
+	// re-definitions that begin to run and fail in the middle: the value expression calls the host
+	// function that fails, or the binding is refused (a string for a name that holds an int64)
+	failing []string
 }
 
 // %d is replaced by a number unique to the case (type names are registered process-wide)
 var noopDefs = []noopDef{
-	{"def", `(def v%d 1)`, `(def v%d 2)`, `(def v%d (let [a] 1))`, []string{`v%d`}},
-	{"set", `(def w%d 1)`, `(set w%d 2)`, `(set w%d (let [a] 1))`, []string{`w%d`}},
-	{"defn", `(defn f%d [x] (+ x 1))`, `(defn f%d [x] (+ x 100))`, `(defn f%d [x] (let [a] 1))`, []string{`(f%d 2)`}},
-	{"defmac", `(defmac m%d [x] ^(+ ~x 1))`, `(defmac m%d [x] ^(+ ~x 100))`, `(defmac m%d [x] (let [a] 1))`, []string{`(m%d 2)`, `(macexpand (m%d 2))`}},
-	{"defmac-nested", `(defmac n%d [x] ^(+ ~x 1))`, `(defmac n%d [x] ^(+ ~x 100))`, `(defmac n%d [x] (cond true (let [a b c] 1) 2))`, []string{`(n%d 2)`}},
-	{"struct", `(struct S%d [(field A: int64)])`, `(struct S%d [(field B: string)])`, ``, []string{`(S%d A: 1)`, `(S%d B: "s")`}},
-	{"func", `(func g%d [a:int64] [r:int64] (return (+ a 1)))`, `(func g%d [a:int64] [r:int64] (return (+ a 100)))`, `(func g%d [a:int64] [r:int64] (return (let [a] 1)))`, []string{`(g%d 2)`}},
-	{"var", `(var u%d int64)`, `(var u%d string)`, ``, []string{`u%d`, `(type? u%d)`}},
+	{"def", `(def v%d 1)`, `(def v%d 2)`, `(def v%d (let [a] 1))`, []string{`v%d`},
+		[]string{`(def v%d (zvfail))`, `(def v%d "s")`, `(def v%d (zvgopanic))`}},
+	{"set", `(def w%d 1)`, `(set w%d 2)`, `(set w%d (let [a] 1))`, []string{`w%d`}, []string{`(set w%d (zvfail))`}},
+	{"defn", `(defn f%d [x] (+ x 1))`, `(defn f%d [x] (+ x 100))`, `(defn f%d [x] (let [a] 1))`, []string{`(f%d 2)`}, nil},
+	{"defmac", `(defmac m%d [x] ^(+ ~x 1))`, `(defmac m%d [x] ^(+ ~x 100))`, `(defmac m%d [x] (let [a] 1))`, []string{`(m%d 2)`, `(macexpand (m%d 2))`}, nil},
+	{"defmac-nested", `(defmac n%d [x] ^(+ ~x 1))`, `(defmac n%d [x] ^(+ ~x 100))`, `(defmac n%d [x] (cond true (let [a b c] 1) 2))`, []string{`(n%d 2)`}, nil},
+	{"struct", `(struct S%d [(field A: int64)])`, `(struct S%d [(field B: string)])`, ``, []string{`(S%d A: 1)`, `(S%d B: "s")`},
+		[]string{`(struct S%d [(field B: string) (zvfail)])`, `(struct S%d [(field B: string)] 5)`, `(struct S%d [(field B: string) (zvgopanic)])`, `(struct S%d [(field B: string) 7])`}},
+	{"func", `(func g%d [a:int64] [r:int64] (return (+ a 1)))`, `(func g%d [a:int64] [r:int64] (return (+ a 100)))`, `(func g%d [a:int64] [r:int64] (return (let [a] 1)))`, []string{`(g%d 2)`}, nil},
+	{"var", `(var u%d int64)`, `(var u%d string)`, ``, []string{`u%d`, `(type? u%d)`}, nil},
 	{"package", `(def p%d (package "p%d" { A := 1; (defn F [x] (+ x A)) }))`, `(def p%d (package "p%d" { A := 100; (defn F [x] (+ x A)) }))`,
-		`(def p%d (package "p%d" { A := (let [a] 1) }))`, []string{`(p%d.F 1)`, `(+ 0 p%d.A)`}},
-	{"mdef", `(mdef a%d b%d (list 1 2))`, `(mdef a%d b%d (list 3 4))`, `(mdef a%d b%d (let [a] 1))`, []string{`(list a%d b%d)`}},
-	{"infix-assign", `{x%d := 1}`, `{x%d = 2}`, `{x%d = (let [a] 1)}`, []string{`x%d`}},
-	{"multi-assign", `(def c%d 1) (def d%d 1)`, `(c%d d%d = 3 4)`, `(c%d d%d = 3 (let [a] 1))`, []string{`(list c%d d%d)`}},
-	{"hash-value", `(def h%d (hash a: 1))`, `(hset h%d a: 2)`, `(hset h%d a: (let [a] 1))`, []string{`(hget h%d a:)`}},
-	{"array-value", `(def r%d [1 2])`, `(aset r%d 0 9)`, `(aset r%d 0 (let [a] 1))`, []string{`r%d`}},
-	{"closure-state", `(def k%d (let [c 0] (fn [] (set c (+ c 1)) c)))`, `(k%d)`, `(begin (k%d) (let [a] 1))`, []string{`(k%d)`}},
+		`(def p%d (package "p%d" { A := (let [a] 1) }))`, []string{`(p%d.F 1)`, `(+ 0 p%d.A)`},
+		[]string{`(def p%d (package "p%d" { A := 100; (defn F [x] (+ x A)); (zvfail) }))`, `(def p%d (package "p%d" { A := (zvfail); (defn F [x] (+ x A)) }))`}},
+	{"mdef", `(mdef a%d b%d (list 1 2))`, `(mdef a%d b%d (list 3 4))`, `(mdef a%d b%d (let [a] 1))`, []string{`(list a%d b%d)`},
+		[]string{`(mdef a%d b%d (list 3 (zvfail)))`, `(mdef a%d b%d (list "s" 5))`}},
+	{"infix-assign", `{x%d := 1}`, `{x%d = 2}`, `{x%d = (let [a] 1)}`, []string{`x%d`}, []string{`{x%d = (zvfail)}`}},
+	{"multi-assign", `(def c%d 1) (def d%d 1)`, `(c%d d%d = 3 4)`, `(c%d d%d = 3 (let [a] 1))`, []string{`(list c%d d%d)`},
+		[]string{`(c%d d%d = (zvfail) 4)`, `(c%d d%d = "s" 4)`}},
+	{"hash-value", `(def h%d (hash a: 1))`, `(hset h%d a: 2)`, `(hset h%d a: (let [a] 1))`, []string{`(hget h%d a:)`}, []string{`(hset h%d a: (zvfail))`}},
+	{"array-value", `(def r%d [1 2])`, `(aset r%d 0 9)`, `(aset r%d 0 (let [a] 1))`, []string{`r%d`}, []string{`(aset r%d 0 (zvfail))`}},
+	{"closure-state", `(def k%d (let [c 0] (fn [] (set c (+ c 1)) c)))`, `(k%d)`, `(begin (k%d) (let [a] 1))`, []string{`(k%d)`}, []string{`(begin (zvfail) (k%d))`}},
 	{"method", `(struct T%d [(field X: int64)]) (method [(p *T%d)] M%d [] [s:string] (return "one"))`,
-		`(method [(p *T%d)] M%d [] [s:string] (return "two"))`, `(method [(p *T%d)] M%d [] [s:string] (return (let [a] 1)))`, []string{`(type? T%d)`}},
+		`(method [(p *T%d)] M%d [] [s:string] (return "two"))`, `(method [(p *T%d)] M%d [] [s:string] (return (let [a] 1)))`, []string{`(type? T%d)`}, nil},
 }
 
 type noopCase struct {
@@ -49,37 +76,238 @@ type noopCase struct {
 	Variant string   `json:"variant"`
 	HasSet  bool     `json:"hasset"`
 	Setup   string   `json:"setup"`
+	Prep    string   `json:"prep"` // a text both interpreters evaluate after the set-up (it completes: it is not part of the failing evaluation)
 	Fail    string   `json:"fail"`
+	File    string   `json:"file"` // contents of the file the failing text sources or includes ("" if none)
 	Probes  []string `json:"probes"`
 	FOut    any      `json:"fout"`   // outcome of the failing text
 	Depths  []int    `json:"depths"` // after the failing text
 	A       []any    `json:"a"`      // probe outcomes after set-up + failing text
 	Twin    []any    `json:"twin"`   // probe outcomes after set-up only
+	Twin2   []any    `json:"twin2"`  // probe outcomes after set-up and the valid re-definition (catalogue variants only)
+	UA      any      `json:"ua"`     // a fresh definition and its use, after the probes
+	UT      any      `json:"ut"`     // the same on the twin
 	ErrText string   `json:"errtext"`
 }
 
-const noopPrelude = "(defmac zvboom [] (aget [1] 5))\n"
+// zvboom: a macro whose expansion fails; zvnoop: a macro that expands to a form without code;
+// zvid, zvid2: functions whose arguments are compiled when the call is executed; zvlz forces a lazy argument
+const noopPrelude = "(defmac zvboom [] (aget [1] 5))\n(defmac zvnoop [] ^(begin))\n" +
+	"(defn zvid [x] x)\n(defn zvid2 [x y] y)\n(defn zvlz [#x] (force #x))\n"
 
-func noopVariants(d noopDef) map[string]string {
-	v := map[string]string{
-		"then-compile-error":   d.redef + "\n(let [a] 1)\n",
-		"then-parse-error":     d.redef + "\n(def q (\n)))\n",
-		"then-unbalanced":      d.redef + "\n)\n",
-		"after-compile-error":  "(let [a] 1)\n" + d.redef + "\n",
-		"then-expansion-error": d.redef + "\n(zvboom)\n",
-		"then-bad-jump":        d.redef + "\n(break)\n",
-		"inside-begin":         "(begin " + d.redef + " (let [a] 1))\n",
-		"inside-fn":            "(defn zvw [] " + d.redef + " (let [a] 1))\n",
+// the use of a fresh definition after everything else: the interpreter is still usable (NoopTrace: Usable)
+const noopUsable = "(defn zvu [x] (+ x 1)) (zvu 41)\n"
+
+type noopVar struct {
+	text string // %F stands for the path of the file
+	file string // contents of the file, "" if the variant has none
+	// the text is the valid re-definition followed by a form of a catalogue: when the form is refused at
+	// run time, the re-definition has run (NoopTrace: the state is that of the twin or that of twin2)
+	redefFirst bool
+}
+
+// forms that no reading makes well-formed: a compile error wherever they are evaluated
+const illFormed = "(let [a] 1)"
+
+// special forms whose operand is an improper list, or otherwise not of the shape the form walks
+var noopMalformed = []string{
+	`(include ("%F" \ b))`,
+	`(include ["%F" ("%F" \ b)])`,
+	`(eval (quote (include ("%F" \ b))))`,
+	`(source ("%F" \ b))`,
+	`(source ["%F" ("%F" \ b)])`,
+	`(include 5)`,
+	`(for (quote \ a) [(def zvi 0) (< zvi 1) (def zvi (+ zvi 1))] 1)`,
+	`(struct (quote \ a) [])`,
+	`(def (quote \ a) 1)`,
+	`(mdef (quote \ a) zvb (list 1 2))`,
+	`(func zvg (a \ b) [r:int64] (return 1))`,
+	`(method (p \ T) M [] [s:string] (return "x"))`,
+	`(struct ZvS [(field A: \ b)])`,
+	`(package (a \ b) {})`,
+	`(interface ZvI [(method (a \ b))])`,
+	`(defmac zvmm (a \ b) 1)`,
+	`(infix (a \ b))`,
+	`(range k v (a \ b) 1)`,
+	`^(1 ~@(2 \ 3))`,
+	`(macexpand (zvboom \ 1))`,
+}
+
+// forms that generate no value x positions that need one, inside an argument of a call that
+// already has a value of the caller on the data stack
+var noopValueless = []string{`(begin)`, `(newScope)`, `(zvnoop)`}
+var noopValuePos = []string{
+	`[%V]`, `(cond %V 2 3)`, `(let [zvx %V] 5)`, `(+ 1 %V)`, `(and %V 2)`, `(def zvy %V)`, `(hash a: %V)`, `(zvid %V)`, `^(1 ~%V)`,
+}
+
+func noopVariants(d noopDef) map[string]noopVar {
+	t := func(s string) noopVar { return noopVar{text: s} }
+	nested := "(begin " + d.redef + " " + illFormed + ")"
+	v := map[string]noopVar{
+		"then-compile-error":   t(d.redef + "\n" + illFormed + "\n"),
+		"then-parse-error":     t(d.redef + "\n(def q (\n)))\n"),
+		"then-unbalanced":      t(d.redef + "\n)\n"),
+		"after-compile-error":  t(illFormed + "\n" + d.redef + "\n"),
+		"then-expansion-error": t(d.redef + "\n(zvboom)\n"),
+		"then-bad-jump":        t(d.redef + "\n(break)\n"),
+		"inside-begin":         t("(begin " + d.redef + " " + illFormed + ")\n"),
+		"inside-fn":            t("(defn zvw [] " + d.redef + " " + illFormed + ")\n"),
+		// the ill-formed form as the operand of an unquote: it is evaluated, so it is compiled
+		"unquote-list":   t(d.redef + "\n^(1 ~" + illFormed + " 3)\n"),
+		"unquote-array":  t(d.redef + "\n^[1 ~" + illFormed + " 3]\n"),
+		"unquote-deep":   t(d.redef + "\n^(1 (2 ~" + illFormed + ") 3)\n"),
+		"unquote-in-fn":  t(d.redef + "\n(defn zvq [] ^(1 ~" + illFormed + " 3))\n"),
+		"unquote-in-mac": t(d.redef + "\n(defmac zvqm [x] ^(list ~" + illFormed + " ~x))\n"),
+		"unquote-splice": t(d.redef + "\n^(1 ~@" + illFormed + " 3)\n"),
+		// the text is compiled on a nested route, and rejected there
+		"route-arg":           t("(zvid " + nested + ")\n"),
+		"route-eval":          t("(eval (quote " + nested + "))\n"),
+		"route-fn-arg":        t("(defn zvw [] (zvid " + nested + "))\n(zvw)\n"),
+		"route-lazy":          t("(zvlz " + nested + ")\n"),
+		"route-source":        {"(source \"%F\")\n", d.redef + "\n" + illFormed + "\n", false},
+		"route-source-parse":  {"(source \"%F\")\n", d.redef + "\n(def q (\n", false},
+		"route-include":       {"(include \"%F\")\n", d.redef + "\n" + illFormed + "\n", false},
+		"route-include-parse": {"(include \"%F\")\n", d.redef + "\n(def q (\n", false},
+		"route-array":         t("[1 " + nested + "]\n"),
+		// a host macro (AddMacro) that panics or fails while the text is compiled
+		"then-hostmacro-panic": t(d.redef + "\n(zvhostmacpanic)\n"),
+		"then-hostmacro-error": t(d.redef + "\n(zvhostmacfail)\n"),
+		// the failing evaluation is entered through the host API: env.Apply on a host function that
+		// panics or fails, and on a script function that calls one before it re-defines the names
+		"apply-host-panic":   t("#apply zvgopanic\n"),
+		"apply-host-error":   t("#apply zvfail\n"),
+		"apply-script-panic": t("(defn zvw [] (zvgopanic) " + d.redef + ")\n#apply zvw\n"),
+		"apply-script-error": t("(defn zvw [] (zvfail) " + d.redef + ")\n#apply zvw\n"),
 	}
 	if d.broken != "" {
-		v["broken-body"] = d.broken + "\n"
+		v["broken-body"] = t(d.broken + "\n")
+	}
+	for i, f := range d.failing {
+		v[fmt.Sprintf("failing-%d", i)] = t(f + "\n")
+	}
+	for i, m := range noopMalformed {
+		v[fmt.Sprintf("malformed-%02d", i)] = noopVar{d.redef + "\n" + m + "\n", "1\n", true}
+	}
+	for i, vl := range noopValueless {
+		for j, pos := range noopValuePos {
+			v[fmt.Sprintf("valueless-%d-%d", i, j)] = noopVar{d.redef + "\n(zvid2 1 " + strings.ReplaceAll(pos, "%V", vl) + ")\n", "", true}
+		}
 	}
 	return v
 }
 
-func runNoop(id string, d noopDef, variant, fail string, hasSet bool, uid int) noopCase {
+// which cases are run: the variants of the rejected text x every kind of definition x with/without set-up,
+// except that the two catalogues (malformed-*, valueless-*) are paired with defmac (the macro table is the
+// state a compile-time panic skips to restore) and two kinds in rotation, and that a refused binding needs
+// the set-up that gives the name its type
+func noopWanted(di int, d noopDef, vn string, vi int, hs int, thorough bool) bool {
+	if strings.HasPrefix(vn, "malformed-") || strings.HasPrefix(vn, "valueless-") {
+		if hs == 0 {
+			return false
+		}
+		return thorough || d.name == "defmac" || di == vi%len(noopDefs) || di == (vi+5)%len(noopDefs)
+	}
+	if strings.HasPrefix(vn, "failing-") && hs == 0 {
+		var i int
+		fmt.Sscanf(vn, "failing-%d", &i)
+		return strings.Contains(d.failing[i], "(zvfail)") || strings.Contains(d.failing[i], "(zvgopanic)")
+	}
+	return true
+}
+
+var genNameRe = regexp.MustCompile(`__(gensym|anon|loop[A-Za-z_]*?)[0-9]+`)
+
+// maskedOutcome is printedOutcome with the numbers of generated names masked: a generated name is an
+// identity like an address (gensym promises a fresh name, not a particular number), and the counter moves
+// with every symbol a parsed text interns
+func maskedOutcome(env *zygo.Zlisp, o outcome) any {
+	r := printedOutcome(env, o)
+	if v, ok := r.([]any); ok && len(v) == 2 && v[0] == "val" {
+		if str, ok := v[1].(string); ok {
+			return []any{"val", genNameRe.ReplaceAllString(str, "__${1}N")}
+		}
+	}
+	return r
+}
+
+// newFailEnv is an interpreter with the host functions that fail on demand
+func newFailEnv() *zygo.Zlisp {
+	env := newSessEnv()
+	env.AddMacro("zvhostmacpanic", func(env *zygo.Zlisp, name string, args []zygo.Sexp) (zygo.Sexp, error) {
+		panic("injected Go panic inside a host macro")
+	})
+	env.AddMacro("zvhostmacfail", func(env *zygo.Zlisp, name string, args []zygo.Sexp) (zygo.Sexp, error) {
+		return zygo.SexpNull, fmt.Errorf("injected failure of a host macro")
+	})
+	env.AddFunction("zvfail", func(env *zygo.Zlisp, name string, args []zygo.Sexp) (zygo.Sexp, error) {
+		return zygo.SexpNull, fmt.Errorf("injected failure")
+	})
+	env.AddFunction("zvgopanic", func(env *zygo.Zlisp, name string, args []zygo.Sexp) (zygo.Sexp, error) {
+		panic("injected Go panic inside a builtin")
+	})
+	return env
+}
+
+// evalOrApply evaluates a text; a text "#apply NAME" is an evaluation entered through the host API:
+// the host calls env.Apply on the function bound to NAME
+func evalOrApply(env *zygo.Zlisp, text string) outcome {
+	if !strings.HasPrefix(text, "#apply ") {
+		return evalSafe(env, text)
+	}
+	name := strings.TrimSpace(strings.TrimPrefix(text, "#apply "))
+	obj, ok := env.FindObject(name)
+	fn, isFn := obj.(*zygo.SexpFunction)
+	if !ok || !isFn {
+		return outcome{Kind: "nilres", Err: "no function " + name}
+	}
+	var o outcome
+	func() {
+		defer func() {
+			if r := recover(); r != nil {
+				o = outcome{Kind: "panic", Err: fmt.Sprint(r)}
+			}
+		}()
+		v, err := env.Apply(fn, nil)
+		switch {
+		case err != nil:
+			o = outcome{Kind: "err", Err: err.Error()}
+		case v == nil:
+			o = outcome{Kind: "nilres"}
+		default:
+			o = outcome{Kind: "val", Val: v}
+		}
+	}()
+	return o
+}
+
+var noopDir string
+
+func caseFile(id, contents string) string {
+	if noopDir == "" {
+		var err error
+		noopDir, err = os.MkdirTemp("", "zvnoop")
+		if err != nil {
+			fatal("%v", err)
+		}
+	}
+	p := filepath.Join(noopDir, id+".zy")
+	if err := os.WriteFile(p, []byte(contents), 0644); err != nil {
+		fatal("%v", err)
+	}
+	return p
+}
+
+func runNoop(id string, d noopDef, variant string, nv noopVar, hasSet bool, uid int) noopCase {
 	c := noopCase{ID: id, Def: d.name, Variant: variant, HasSet: hasSet}
-	c.Fail = inst(fail, uid)
+	c.Fail = inst(nv.text, uid)
+	if i := strings.Index(c.Fail, "#apply "); i > 0 {
+		// the definition of the function that the host applies is a completed evaluation of its own
+		c.Prep, c.Fail = c.Fail[:i], c.Fail[i:]
+	}
+	if nv.file != "" {
+		c.File = inst(nv.file, uid)
+		c.Fail = strings.ReplaceAll(c.Fail, "%F", caseFile(id, c.File))
+	}
 	if hasSet {
 		c.Setup = inst(d.setup, uid) + "\n"
 	}
@@ -87,34 +315,50 @@ func runNoop(id string, d noopDef, variant, fail string, hasSet bool, uid int) n
 		c.Probes = append(c.Probes, inst(p, uid)+"\n")
 	}
 	quiet(func() {
-		run := func(withFail bool) []any {
-			env := newSessEnv()
+		run := func(withFail bool, more string) ([]any, any) {
+			env := newFailEnv()
 			defer env.Close()
 			evalSafe(env, noopPrelude)
 			if c.Setup != "" {
 				evalSafe(env, c.Setup)
 			}
+			if c.Prep != "" {
+				evalSafe(env, c.Prep)
+			}
+			if more != "" {
+				evalSafe(env, more)
+			}
 			if withFail {
-				o := evalSafe(env, c.Fail)
-				c.FOut = printedOutcome(env, o)
+				o := evalOrApply(env, c.Fail)
+				c.FOut = maskedOutcome(env, o)
 				c.ErrText = trunc(o.Err, 200)
 				c.Depths = depthsOf(env)
 			}
 			var outs []any
 			for _, p := range c.Probes {
-				outs = append(outs, printedOutcome(env, evalSafe(env, p)))
+				outs = append(outs, maskedOutcome(env, evalSafe(env, p)))
 			}
-			return outs
+			return outs, maskedOutcome(env, evalSafe(env, noopUsable))
 		}
-		c.A = run(true)
+		c.A, c.UA = run(true, "")
 		// the twin declares its own type names: the registry is process-wide
 		saved := c
+		c.Probes = append([]string(nil), c.Probes...)
 		c.Setup = strings.ReplaceAll(c.Setup, fmt.Sprint(uid), fmt.Sprint(uid+1))
+		c.Prep = strings.ReplaceAll(c.Prep, fmt.Sprint(uid), fmt.Sprint(uid+1))
 		for i := range c.Probes {
 			c.Probes[i] = strings.ReplaceAll(c.Probes[i], fmt.Sprint(uid), fmt.Sprint(uid+1))
 		}
-		c.Twin = run(false)
-		c.Setup, c.Probes = saved.Setup, saved.Probes
+		c.Twin, c.UT = run(false, "")
+		c.Twin2 = []any{}
+		if nv.redefFirst {
+			c.Setup = strings.ReplaceAll(c.Setup, fmt.Sprint(uid+1), fmt.Sprint(uid+2))
+			for i := range c.Probes {
+				c.Probes[i] = strings.ReplaceAll(c.Probes[i], fmt.Sprint(uid+1), fmt.Sprint(uid+2))
+			}
+			c.Twin2, _ = run(false, inst(d.redef, uid+2)+"\n")
+		}
+		c.Setup, c.Prep, c.Probes = saved.Setup, saved.Prep, saved.Probes
 	})
 	return c
 }
@@ -124,6 +368,11 @@ func init() {
 		c := commonFlags("noop", args, nil)
 		w := newWriter(c.out)
 		defer w.close()
+		defer func() {
+			if noopDir != "" {
+				os.RemoveAll(noopDir)
+			}
+		}()
 		if c.replay != "" {
 			readLines(c.replay, func(line []byte) {
 				var in noopCase
@@ -150,8 +399,11 @@ func init() {
 			sortStrings(names)
 			for vi, vn := range names {
 				for hs := 0; hs < 2; hs++ {
+					if !noopWanted(di, d, vn, vi, hs, c.thorough()) {
+						continue
+					}
 					if c.mine(idx) {
-						uid := 3000000 + di*10000 + vi*100 + hs*10
+						uid := 3000000 + di*20000 + vi*100 + hs*10
 						w.write(runNoop(fmt.Sprintf("n%d", uid), d, vn, vs[vn], hs == 1, uid))
 					}
 					idx++
